@@ -3,8 +3,10 @@ From Coq Require Import ZArith List.
 From Coq Require Import ExtrOcamlBasic.
 From Webp Require Base.Res.
 From Webp Require Riff.DemuxModel.
+From Webp Require Riff.ParserModel.
 
 Separate Extraction
   BinInt.Z.add BinInt.Z.mul BinInt.Z.sub BinInt.Z.opp BinInt.Z.div BinInt.Z.modulo
   BinInt.Z.eqb BinInt.Z.ltb BinInt.Z.leb BinInt.Z.of_nat BinInt.Z.to_nat BinInt.Z.of_N BinInt.Z.to_N
-  Riff.DemuxModel.parse Riff.DemuxModel.read_chunk Riff.DemuxModel.read_chunk_header Riff.DemuxModel.frame Riff.DemuxModel.get_chunk Riff.DemuxModel.num_frames.
+  Riff.DemuxModel.parse Riff.DemuxModel.read_chunk Riff.DemuxModel.read_chunk_header Riff.DemuxModel.frame Riff.DemuxModel.get_chunk Riff.DemuxModel.num_frames
+  Riff.ParserModel.parse_ex.
